@@ -112,7 +112,20 @@ def build_response(rng, d, key, prev_key):
         rng.shuffle(hdrs)
     if d.get("location"):
         hdrs.append(f"Location: {d['location']}")
+    sm = d.get("smuggle")
+    if sm and sm[0] == "inner-status-line":
+        # a second status line further down in the header block (what a confused gateway or a hostile server may produce)
+        hdrs.insert(sm[1] % (len(hdrs) + 1), "HTTP/1.1 101 Switching Protocols")
+    elif sm and sm[0] == "hidden":
+        # the header the response lacks appears only as text inside another header's value, behind a character that is no line end
+        # in HTTP (vertical tab, form feed, FS/GS/RS, NEL, LINE/PARAGRAPH SEPARATOR, a lone CR, NUL)
+        _, sep, which = sm
+        missing = {"upgrade": "Upgrade: websocket", "connection": "Connection: Upgrade", "accept": f"Sec-WebSocket-Accept: {right}",
+                   "selected": f"Sec-WebSocket-Protocol: {(d.get('offered') or ['chat'])[0]}"}[which]
+        hdrs.insert(len(hdrs) // 2, f"X-Note: demo{sep}{missing}")
     text = "\r\n".join(lines + hdrs) + "\r\n\r\n"
+    if sm:
+        return text.encode("utf-8")
     try:
         return text.encode("latin-1")
     except UnicodeEncodeError:
@@ -121,6 +134,8 @@ def build_response(rng, d, key, prev_key):
 
 def verdict(d):
     """'accept' | 'reject' | 'unjudged' for a final (non-redirect) response"""
+    if d.get("smuggle"):
+        return "reject"  # built so: the status is not 101, or a required header exists only as text inside another header's value
     if d["status"] != 101:
         if isinstance(d["status"], str) and d["status"].strip().isdigit() and int(d["status"]) == 101:
             return "unjudged"  # not a 3-digit status-code, but numerically 101: the statement does not say
@@ -282,6 +297,20 @@ def head_case(res, W, rng):
         if d.get("interim"):
             base = d
         d = base
+    if rng.random() < 0.1:
+        d = {"status": 101, "upgrade": "websocket", "connection": "Upgrade", "accept": "right", "offered": off, "selected": ("chat" if off else None),
+             "reason": "Switching Protocols", "name_case": rng.random() < 0.3, "dup": False, "shuffle": rng.random() < 0.3}
+        if rng.random() < 0.35:
+            d.update(status=rng.choice([403, 404, 200, 500, 400, 0]), reason="Forbidden", smuggle=("inner-status-line", rng.randrange(8)))
+        else:
+            which = rng.choice(["upgrade", "connection", "accept"] + (["selected"] if off else []))
+            sep = rng.choice(["\x0b", "\x0c", "\x1c", "\x1d", "\x1e", "\x85", "\u2028", "\u2029", "\r", "\x00", "\u000b\u2028"])
+            d["smuggle"] = ("hidden", sep, which)
+            if which == "accept":
+                d["accept"] = "absent"
+            else:
+                d[which] = None
+        res.count("smuggled_heads:" + d["smuggle"][0])
     keys = []
 
     def on_conn(conn):
@@ -321,6 +350,8 @@ def head_case(res, W, rng):
                 pass
         return
     dev = "status" if d["status"] != 101 else "accept:" + d["accept"] if d["accept"] != "right" else "headers"
+    if d.get("smuggle"):
+        dev = "smuggled:" + d["smuggle"][0]
     check_outcome(res, W, exp, kind, exc, w, net_, case, "head", {"deviation": dev if exp == "reject" else "none"})
     if exp == "accept" and kind == "returned" and d.get("selected") and off:
         if (w.subprotocol or "").lower() != d["selected"].lower():
